@@ -400,6 +400,16 @@ Example c11_constants_fit_nonvacuous :
   end.
 Proof. exact values_example_full. Qed.
 
+(** still FALSE of the code (finding C11-K15): no constant is defined in terms of itself.
+    const i32 a = b, const i32 b = a passes validation (each reference names a constant of the
+    right kind); the generators emit the circular references *)
+Theorem c11_constant_cycle_accepted_refuted :
+  cvalidate 10 w_const_cycle [] = ROk
+  /\ c_value (nth 0 (fr_constants w_const_cycle) (mkconst None [] (ty0 "i32") COther [])) = CIdent (T "b")
+  /\ c_value (nth 1 (fr_constants w_const_cycle) (mkconst None [] (ty0 "i32") COther [])) = CIdent (T "a").
+Proof. exact constant_cycle_accepted_refuted. Qed.
+Print Assumptions c11_constant_cycle_accepted_refuted.
+
 (** include cycles are detected by the cleaned path of the file.  For every file system and every
     chain of files being parsed: a file whose path is on the chain is reported as a circular
     include; a file whose path is NOT on the chain but whose name is (a different file of the same
